@@ -23,6 +23,130 @@ def single_def(body, l):
     partial = [d for d in body.defs().get(l, []) if d[0] in ("partial", "partialcall")]
     if len(ds) == 1 and not partial:
         return ds[0]
+    if len(ds) > 1 and not partial and len({d[0] for d in ds}) == 1:
+        # the same definition repeated in blocks cloned by jump threading is one definition
+        def key(d):
+            if d[0] == "assign":
+                return _strip_span(d[3])
+            if d[0] == "call":
+                return (d[2].callee, _strip_span(d[2].args))
+            return id(d)
+        if len({repr(key(d)) for d in ds}) == 1 and ds[0][0] in ("assign", "call"):
+            return ds[0]
+    return None
+
+
+def _strip_span(x):
+    if isinstance(x, dict):
+        return {k: _strip_span(v) for k, v in sorted(x.items()) if k not in ("span", "macros")}
+    if isinstance(x, list):
+        return [_strip_span(v) for v in x]
+    return x
+
+
+def _aggregate_of(body, l, depth=0):
+    """the aggregate rvalue a local holds, looking through whole-local copies and (for `?`) through Try::branch of a literal Ok/Some"""
+    for _ in range(32):
+        d = single_def(body, l)
+        if d is None or d[0] != "assign":
+            return None
+        rv = d[3]
+        if rv["k"] == "agg":
+            return rv
+        if rv["k"] == "use" and rv["op"].get("k") in ("copy", "move"):
+            pl = rv["op"]["pl"]
+            if not pl["p"]:
+                l = pl["l"]
+                continue
+            inner = _project(body, pl, depth + 1)
+            if inner is not None and inner.get("k") in ("copy", "move") and not inner["pl"]["p"]:
+                l = inner["pl"]["l"]
+                continue
+        return None
+    return None
+
+
+def _success_aggregate(body, l):
+    """the `Ok(..)` / `Some(..)` literal a Result / Option local holds on its success path: definitions that build the failure variant
+    (Err / None literals, `?`'s from_residual) are irrelevant to the Continue payload of a following `?`"""
+    for _ in range(32):
+        ds = [d for d in body.defs().get(l, []) if d[0] in ("assign", "call")]
+        if [d for d in body.defs().get(l, []) if d[0] in ("partial", "partialcall", "arg", "yield")]:
+            return None
+        ok = []
+        for d in ds:
+            if d[0] == "call":
+                if strip_generics(d[2].callee) == "core::ops::try_trait::FromResidual::from_residual":
+                    continue
+                return None
+            rv = d[3]
+            if rv["k"] == "agg" and rv.get("variant") in ("Err", "None"):
+                continue
+            ok.append(rv)
+        if not ok or len({repr(_strip_span(r)) for r in ok}) != 1:
+            return None
+        rv = ok[0]
+        if rv["k"] == "agg" and rv.get("variant") in ("Ok", "Some"):
+            return rv
+        if rv["k"] == "use" and rv["op"].get("k") in ("copy", "move") and not rv["op"]["pl"]["p"]:
+            l = rv["op"]["pl"]["l"]
+            continue
+        return None
+    return None
+
+
+def _project(body, pl, depth=0):
+    """the operand stored at place `pl` = local.<field> or local.<variant>.<field>, when the local's value is a visible aggregate
+    (struct / tuple / newtype literal, a literal enum variant, or the Continue payload of `?` applied to a literal Ok / Some)"""
+    if depth > 6:
+        return None
+    p = [e for e in pl["p"] if e != "*"]
+    if len(p) == 1 and isinstance(p[0], int):
+        agg = _aggregate_of(body, pl["l"], depth)
+        if agg is not None and agg.get("agg") in ("adt", "tuple") and p[0] < len(agg["ops"]) and (agg.get("agg") == "tuple" or agg.get("variant") in (None, agg.get("adt", "").rsplit("::", 1)[-1]) or True):
+            return agg["ops"][p[0]]
+        return None
+    if len(p) == 2 and isinstance(p[0], dict) and "vn" in p[0] and isinstance(p[1], int):
+        vn = p[0]["vn"]
+        d = single_def(body, pl["l"])
+        if d is None:
+            return None
+        if d[0] == "call" and strip_generics(d[2].callee) == "core::ops::try_trait::Try::branch" and vn == "Continue" and d[2].args and d[2].args[0].get("k") in ("copy", "move") \
+                and not d[2].args[0]["pl"]["p"]:
+            agg = _success_aggregate(body, d[2].args[0]["pl"]["l"])
+            if agg is not None and p[1] < len(agg["ops"]):
+                return agg["ops"][p[1]]
+            return None
+        agg = _aggregate_of(body, pl["l"], depth)
+        if agg is None:
+            agg = _variant_aggregate(body, pl["l"], vn)
+        if agg is not None and agg.get("variant") == vn and p[1] < len(agg["ops"]):
+            return agg["ops"][p[1]]
+    return None
+
+
+def _variant_aggregate(body, l, vn):
+    """the literal `Enum::vn(..)` a local holds on the paths where it is that variant: literals of the other variants are irrelevant to a
+    read of `(local as vn).field`"""
+    for _ in range(32):
+        ds = body.defs().get(l, [])
+        if [d for d in ds if d[0] not in ("assign",)]:
+            return None
+        mine = []
+        for d in ds:
+            rv = d[3]
+            if rv["k"] == "agg" and rv.get("agg") == "adt" and rv.get("variant") != vn:
+                continue
+            mine.append(rv)
+        if not mine or len({repr(_strip_span(r)) for r in mine}) != 1:
+            return None
+        rv = mine[0]
+        if rv["k"] == "agg" and rv.get("variant") == vn:
+            return rv
+        if rv["k"] == "use" and rv["op"].get("k") in ("copy", "move") and not rv["op"]["pl"]["p"]:
+            l = rv["op"]["pl"]["l"]
+            continue
+        return None
     return None
 
 
@@ -69,6 +193,12 @@ def root(body, op_or_local, through_calls=ADAPTERS, max_steps=64):
                 return ("const", o)
             if o.get("k") in ("copy", "move"):
                 if any(e != "*" for e in o["pl"]["p"]):
+                    inner = _project(body, o["pl"])       # ..unless the base is a visible aggregate (newtype wrapper, literal Ok through `?`)
+                    if inner is not None and inner.get("k") == "const":
+                        return ("const", inner)
+                    if inner is not None and inner.get("k") in ("copy", "move") and not any(e != "*" for e in inner["pl"]["p"]):
+                        l = inner["pl"]["l"]
+                        continue
                     return ("rv", rv, d[1], d[2], l)      # a field / variant payload is not its base
                 l = o["pl"]["l"]
                 continue
